@@ -242,7 +242,7 @@ NZ == -1
 SigTerm == 15
 SigStatus == 384 + SigTerm      \* exit_status.md: "384 plus the signal number"
 Kinds == {"true", "false", "st7", "echo", "exit", "exit3", "synerr", "dot", "setbad", "sbredir", "asgerr", "experr",
-          "cmddot", "redir", "credir", "notfound", "execfail", "sig", "obs", "penv"}
+          "cmddot", "redir", "credir", "notfound", "execfail", "sig", "kill", "obs", "penv"}
 \* shell errors after which a non-interactive shell shall exit and an interactive
 \* shall not (XCU 2.8.1: syntax error, special built-in utility error, redirection
 \* error with a special built-in, variable assignment error, expansion error;
@@ -284,6 +284,7 @@ Line(k, src) ==
     [] k = "notfound" -> <<"./nosuchcmd">>
     [] k = "execfail" -> <<"exec ./nosuchcmd">>
     [] k = "sig" -> <<"(selfkill)">>
+    [] k = "kill" -> <<"kill -s TERM $$">>
     [] k = "obs" -> ObsLines(src)
     [] k = "penv" -> <<"printenv a-b">>
 ProgLines(prog, trap, src) ==
@@ -348,6 +349,7 @@ Finish(S, st) ==
 (* One command.  The result says how the loop goes on:                      *)
 (*   go    next command, with $? = st                                       *)
 (*   exit  the shell exits (EXIT trap first) with st                        *)
+(*   die   the shell process is killed by SIGTERM (no EXIT trap)            *)
 Effect(k, S) ==
   LET fatal == IF S.inter /\ Variant # "interactive-exits-on-error" THEN [act |-> "go", st |-> NZ, out |-> <<>>] ELSE [act |-> "exit", st |-> NZ, out |-> <<>>]
   IN CASE k = "true" -> [act |-> "go", st |-> 0, out |-> <<>>]
@@ -365,25 +367,31 @@ Effect(k, S) ==
        \* exec.md "Errors" / "Exit status"
        [] k = "execfail" -> IF S.inter THEN [act |-> "go", st |-> 127, out |-> <<>>] ELSE [act |-> "exit", st |-> 127, out |-> <<>>]
        [] k = "sig" -> [act |-> "go", st |-> SigStatus, out |-> <<>>]
+       \* a signal sent to the shell itself: an interactive shell ignores SIGTERM
+       \* (traps.md "Auto-ignored signals"); any other is killed, and "when the shell is
+       \* killed by a signal ... the trap is not executed" (termination.md)
+       [] k = "kill" -> IF S.inter THEN [act |-> "go", st |-> 0, out |-> <<>>] ELSE [act |-> "die", st |-> SigStatus, out |-> <<>>]
        [] k = "obs" -> [act |-> "go", st |-> 0, out |-> S.obs]
        [] k = "penv" -> IF S.penv THEN [act |-> "go", st |-> 0, out |-> <<"1">>] ELSE [act |-> "go", st |-> 1, out |-> <<>>]
 RECURSIVE RunFrom(_, _, _)
 RunFrom(prog, i, S) ==
-  IF i > Len(prog) THEN Finish(S, S.st)                      \* end of input
+  IF i > Len(prog) THEN Finish(S, S.st) @@ [died |-> FALSE]      \* end of input
   ELSE LET e == Effect(prog[i], S)
            S1 == [S EXCEPT !.out = S.out \o e.out, !.st = e.st]
-       IN IF e.act = "exit" THEN Finish(S1, e.st)
+       IN IF e.act = "die" THEN [out |-> S1.out, st |-> SigStatus, died |-> TRUE]
+          ELSE IF e.act = "exit" THEN Finish(S1, e.st) @@ [died |-> FALSE]
           \* errexit (exit_status.md "Exiting on errors"): a failing command
-          ELSE IF S.errexit /\ e.st # 0 THEN Finish(S1, e.st)
+          ELSE IF S.errexit /\ e.st # 0 THEN Finish(S1, e.st) @@ [died |-> FALSE]
           ELSE RunFrom(prog, i + 1, S1)
 
 \* ------------------------------------------------------------ expectation
-\* ran: the main program was started (used by the laws only)
+\* ran: the main program was started and the shell left by exiting, not killed from
+\* outside (used by the laws only)
 Alt(out, lo, hi, sig, err, ran) == [out |-> out, lo |-> lo, hi |-> hi, sig |-> sig, err |-> err, ran |-> ran]
 \* an exit status as the parent sees it: the range, or death by the signal
 \* (exit_status.md "Exit status of the shell")
 AltOf(r, err) ==
-  IF r.st = SigStatus THEN Alt(r.out, 0, 0, SigTerm, err, TRUE)
+  IF r.st = SigStatus THEN Alt(r.out, 0, 0, SigTerm, err, ~r.died)
   ELSE IF r.st = NZ THEN Alt(r.out, 1, 125, 0, err, TRUE)
   ELSE Alt(r.out, r.st, r.st, 0, err, TRUE)
 \* does the program (on the path it actually takes) provoke a diagnostic?
@@ -394,7 +402,7 @@ Executed(prog, i, S) ==
   IF i > Len(prog) THEN <<>>
   ELSE LET e == Effect(prog[i], S)
            S1 == [S EXCEPT !.st = e.st]
-       IN IF e.act = "exit" \/ (S.errexit /\ e.st # 0) THEN <<prog[i]>>
+       IN IF e.act \in {"exit", "die"} \/ (S.errexit /\ e.st # 0) THEN <<prog[i]>>
           ELSE <<prog[i]>> \o Executed(prog, i + 1, S1)
 
 ObsOut(sc) ==
@@ -569,4 +577,9 @@ InteractiveSurvives(sc) ==
       S0 == [inter |-> TRUE, errexit |-> FALSE, trap |-> "", st |-> 0, out |-> <<>>, obs |-> <<>>, penv |-> FALSE]
       kinds == Executed(sc.prog, 1, S0)
   IN \A i \in DOMAIN sc.prog : (\A j \in 1..(i - 1) : sc.prog[j] \notin {"exit", "exit3"}) => Len(kinds) >= i
+\* a shell killed by a signal runs no EXIT trap; the parent sees the signal
+KilledSilently(sc) ==
+  LET e == Expect(sc)
+  IN (e.class = "ok" /\ Has(sc.prog, "kill") /\ ~OptionsOf(sc).interactive) =>
+        \A a \in DOMAIN e.alts : (e.alts[a].ran \/ e.alts[a].lo = 127 \/ (e.alts[a].sig = SigTerm /\ CountPrefix(e.alts[a].out, "T:") = 0))
 =============================================================================
